@@ -673,3 +673,59 @@ def undefined_metadata_none(ctx, res):
                "the AttributeError and return None (undefined metadata reads "
                "as None; MetadataFilter depends on it)")
     res.floor(2)
+
+
+# ---------------------------------------------------------------------------
+# keywords are whole-token matches
+
+@rule("C15.keyword-whole-match", ["C15"],
+      "the lexer turns a NAME token into a keyword terminal (`items`) only "
+      "when the *whole* token is that keyword: the scanner behind the "
+      "keyword callback is built with match_whole bound to True, so that "
+      "`itemsize` or `items_changed` stay trait names")
+def keyword_whole_match(ctx, res):
+    repo = get_pyrepo(ctx)
+    rel = "traits/observation/_generated_parser.py"
+    mod = repo.module(rel)
+    sc = mod.classes.get("Scanner")
+    if sc is None or "__init__" not in sc.methods:
+        raise AnalysisError("generated parser: class Scanner not found")
+    init = sc.methods["__init__"]
+    params = [a.arg for a in init.args.args][1:]
+    defaults = dict(zip(params[len(params) - len(init.args.defaults):],
+                        init.args.defaults))
+    if "match_whole" not in params:
+        raise AnalysisError("Scanner.__init__ has no match_whole parameter")
+    # the parameter must reach the matching code: it selects fullmatch-like
+    # behaviour (a `$`-anchored pattern) somewhere in the class
+    used = any(isinstance(n, ast.Attribute) and n.attr == "match_whole"
+               and isinstance(n.ctx, ast.Load) for n in ast.walk(sc.node))
+    res.instance("Scanner", mod.loc(init), params=params)
+    res.oblige(used, "Scanner:match_whole-used", mod.loc(init),
+               "Scanner never consults match_whole")
+    sites = [c for c in ast.walk(mod.tree) if isinstance(c, ast.Call)
+             and norm(c.func) == "UnlessCallback" and c.args]
+    if not sites:
+        raise AnalysisError("generated parser: keyword callback "
+                            "(UnlessCallback) construction not found")
+    for c in sites:
+        inner = c.args[0]
+        key = "keyword-callback"
+        res.instance(key, mod.loc(c))
+        ok = False
+        shown = norm(inner)[:70]
+        if isinstance(inner, ast.Call) and norm(inner.func) == "Scanner":
+            bound = dict(zip(params, inner.args))
+            for k in inner.keywords:
+                if k.arg:
+                    bound[k.arg] = k.value
+            v = bound.get("match_whole", defaults.get("match_whole"))
+            ok = isinstance(v, ast.Constant) and v.value is True
+            shown = f"match_whole={norm(v) if v is not None else None}"
+        res.oblige(ok, f"{key}:match-whole", mod.loc(c),
+                   f"the scanner that recognises keywords inside NAME tokens "
+                   f"is built with {shown}: a name that merely *starts* with "
+                   f"a keyword (`itemsize`, `items_changed`) is lexed as the "
+                   f"keyword, and the expression observes container items "
+                   f"instead of the named trait")
+    res.floor(2)
